@@ -4,7 +4,9 @@ UNITS = {
     'k_perm': dict(cpp='harness/k_perm.cpp', all_hooks=True),
     'k_version': dict(cpp='harness/k_version.cpp', all_hooks=True),
     'k_compare': dict(cpp='harness/k_compare.cpp'),
-    'n_t1': dict(cpp='harness/n_t1.cpp', cdefs=('YK_VAL_CAP=16',)),
+    # T0/T1 without split: functions that the shape cannot reach are cut (a cut is an assertion, DESIGN 2.9(2))
+    'n_t1': dict(cpp='harness/n_t1.cpp', cdefs=('YK_VAL_CAP=16',), cuts=('delete_ofILb0', 'get_child_of', 'interior_node9delete_of')),
+    'n_t1s': dict(cpp='harness/n_t1.cpp', cdefs=('YK_VAL_CAP=16', 'YK_NALLOC=40')),
     'k_value': dict(cpp='harness/k_value.cpp', cdefs=('YK_VAL_CAP=48',)),
 }
 
@@ -21,7 +23,19 @@ W64 = 'every 64-bit version word (all flag combinations, both 29-bit counters in
 
 TUP = 'all valid (slice,len) tuples: len 0..9, arbitrary bytes incl. 0x00/0xFF, zero padding above len'
 
+T1B = 'shape T1(n) with n concrete; keys: all valid 8-byte slices x lengths 0..8, strictly ascending; 1-byte symbolic values; op key and probe key: all byte strings of length 0..8; version counters concrete'
+_T1_GET = [H('n_t1', 'H_t1_get_n%s' % n, 'real get<char> on T1(%s): hit returns the stored body/length, miss returns WARN_NOT_EXIST + checked version' % n, T1B) for n in ('1', '2', '3', '4s')]
+_T1_REMOVE = [H('n_t1', 'H_t1_remove_n%d' % n, 'real remove on T1(%d): status, RI(post), probe get == reference map, value retired once with the session epoch, nothing freed' % n, T1B) for n in (1, 2, 3)]
+_T1_PUT = [H('n_t1', 'H_t1_put_n%d' % n, 'real put<char> (upsert / unique) on T1(%d): status, RI(post), probe get == reference map, inserted_node_info, version effect, gc conformance' % n, T1B) for n in (1, 2, 3)]
+_T0_PUT = [H('n_t1', 'H_t0_put', 'first put into a storage without root (+ get/remove on the empty storage)', 'all keys of length 0..8'),
+           H('n_t1', 'H_t0d_put', 're-insert into the empty deleted root that removes leave behind behaves like a fresh storage', 'all keys of length 0..8')]
+_T1_BIG = [H('n_t1', 'H_t1_put_n14', 'put into T1(14) (last insert before the node is full)', T1B, tier='thorough', timeout=3000),
+           H('n_t1s', 'H_t1_put_split', 'put into a FULL root border: border_split + new interior root; map semantics, RI, C12', T1B, tier='thorough', timeout=3400)]
+
 REGISTRY = {
+    'C02': _T1_GET + _T1_REMOVE + _T1_PUT + _T0_PUT + _T1_BIG,
+    'C08': _T1_REMOVE + _T1_PUT + _T0_PUT + _T1_BIG,
+    'C12': _T1_PUT + _T0_PUT + _T1_BIG,
     'C15': [
         H('k_value', 'H_val_create_roundtrip', 'value::create_value<false> -> get_body/get_len/get_gc_info/need_delete/delete_value + link_or_value::set_value', 'v_len 0..12 symbolic bytes, align 1..32'),
         H('k_value', 'H_val_inline', 'create_value<true> / link_or_value with pointer-typed values', 'every 62-bit word'),
@@ -51,6 +65,19 @@ REGISTRY = {
 }
 
 LEVEL_TEXT = {
+    'C02': dict(text='One real put/get/remove call is executed symbolically from an ARBITRARY valid state of each shape in the catalogue '
+                     '(contents, operation key/value/flags and a probe key symbolic; topology, entry counts and slot assignment concrete per query) and the '
+                     'status, the representation invariant of the post-state and the real get of the probe key are compared with the reference ordered map. '
+                     'Because the pre-state is any valid state of the shape, one discharged step covers operation histories of any length that stay inside the shape family.',
+                note='Bounds: shapes T0, T0d, T1(1..4) quick, T1(14), T1(15)+split thorough; keys of 0..8 bytes (one layer); values 1 byte. Version counters concrete '
+                     '(all counter values are covered at kind K, C17). Trusted: clang++-14, ll2c (cross-validated on solver witnesses against the g++ build), CBMC+kissat.',
+                ref='DESIGN.md 4/C02'),
+    'C08': dict(text='RI(post) - sortedness/uniqueness of entries, separator bounds, parent/child and prev/next consistency, no lock or dirty bit left, no unlinked '
+                     'node reachable - and get(probe)==reference are asserted after every symbolic put/remove step from an arbitrary valid state of the shape.',
+                note='Same bounds and trusted base as C02; the concurrent half (quiescent states of schedules) only where a sequentialized harness is registered.', ref='DESIGN.md 4/C08'),
+    'C12': dict(text='For every symbolic put from an arbitrary valid state of the shape the reported modified/created node-version pointers and the stable versions '
+                     'of all border nodes before/after are compared: insert changes exactly the reported nodes, overwrite and rejected unique-insert change none.',
+                note='Same bounds and trusted base as C02.', ref='DESIGN.md 4/C12'),
     'C17': dict(text='The version-word protocol is decided for ALL 2^64 words through the public operations of the real node_version64 '
                      '(unlock, lock, every atomic_set_*, atomic_inc_vinsert, get_stable_version): exact field effects incl. the 2^29 wrap, '
                      'one CAS per mutator. The concurrent half (mutual exclusion, stable-version argument under interleavings) is decided by '
